@@ -14,6 +14,10 @@ RULE = ("every labelled DAG(n), n<=4 quick / n<=5 thorough, each under the given
         "'label' — the only things HEAD writes — must be unchanged); attrs now include weight 0/None/nan/negative; identity-hashed "
         "('obj') and mixed labels; 300 dense (p=0.7-0.9) 6-8 node DAGs; 6 long DAGs (150-220 nodes: chain / ladder / collider chain "
         "+ side branches) run with the recursion limit lowered to depth+120 (HEAD is iterative); "
+        "UNIT level: order_edges and label_edges called directly on every DAG(n<=4), 200 sparse and some time-series DAGs — the "
+        "edge order (Chickering Alg. 4, pinned by the repo's tests) is compared with order_model, the labels with label_model; "
+        "400 sparse DAGs n=7..16 with many isolated/root nodes (planted a->x<-b, x->y); 80 StationaryTimeSeriesDiGraph inputs "
+        "(abstract graph read off the built object); attribute keys that are not str on nodes/edges/graph; "
         "the model is run at networkx's actual topological order of the very DiGraph handed to the code; brute-force "
         "oracle (all orientations of the skeleton) when |E|<=12 (random cases of the quick tier: |E|<=9). distinct by canonical DAG; non-trivial = the CPDAG has "
         "both a directed and an undirected edge, or an isolated node")
@@ -47,6 +51,38 @@ LEVEL_NOTE = ("Proof route for 'undirected => reversible': compelled parents are
 
 
 LAB_FAMILIES = ["str", "tuple", "bigint", "frozenset", "int257", "obj", "mixed"]
+
+
+def sparse_roots_dag(rng, n):
+    """few edges, many isolated / root nodes: a planted compelled chain (a -> x <- b, x -> y, optionally more parents of y that
+    are parents of x) or a sparse random DAG, the other nodes isolated or roots of single edges"""
+    nodes = list(range(n))
+    rng.shuffle(nodes)
+    D = []
+    if rng.random() < 0.6:
+        a, b, x, y = nodes[:4]
+        D = [[a, x], [b, x], [x, y]]
+        rest = nodes[4:]
+        if rng.random() < 0.3:
+            D.append([a, y])
+        if rest and rng.random() < 0.4:
+            z = rest[0]
+            D += [[x, z]] if rng.random() < 0.5 else [[y, z]]
+        for _ in range(rng.randint(0, 2)):
+            if len(rest) >= 2:
+                u, v = rng.sample(rest, 2)
+                if [v, u] not in D and [u, v] not in D and gr.is_acyclic(n, D + [[u, v]]):
+                    D.append([u, v])
+    else:
+        m = rng.randint(2, 7)
+        for _ in range(m):
+            u, v = rng.sample(nodes, 2)
+            if nodes.index(u) > nodes.index(v):
+                u, v = v, u
+            if [u, v] not in D:
+                D.append([u, v])
+    rng.shuffle(D)
+    return gr.G(range(n), D=D)
 
 
 def long_dag(rng, n):
@@ -176,6 +212,27 @@ def gen_cases(tier, rng):
         elif r < 0.4:
             c["_lab"] = rng.choice(LAB_FAMILIES)
         yield c
+    # UNIT level: order_edges / label_edges called directly; the edge order (Chickering Alg. 4) and the labels are compared
+    # with the model's order_model / label_model on every small DAG and on sparse larger ones
+    for n in range(1, 5):
+        for g in gr.enum_dag(n):
+            yield {"kind": "unit%d" % n, "g": g, "unit": True}
+    # sparse DAGs with many isolated / root nodes, n = 8..16 (packed sort keys, radix slips); time-series DiGraphs
+    for i in range(400 if tier == "quick" else 2000):
+        c = {"kind": "sparse", "g": sparse_roots_dag(rng, rng.randint(7, 16)), "_order": rng.randint(3, 10 ** 6), "orc": 4}
+        if i % 2 == 0:
+            c["unit"] = True
+            c["kind"] = "sparse-unit"
+        elif i % 7 == 1:
+            c["attrs"] = rng.randint(0, 10 ** 6)
+        yield c
+    for i in range(80 if tier == "quick" else 400):
+        c = {"kind": "tsdag", "ts": ts_template(rng), "g": gr.G([0]), "orc": 6}
+        if i % 3 == 0:
+            c["unit"] = True
+        if i % 4 == 0:
+            c["_order"] = rng.randint(3, 10 ** 6)
+        yield c
     for i in range(6 if tier == "quick" else 20):
         yield {"kind": "deep", "g": long_dag(rng, rng.randint(150, 220)), "orc": -1, "_reclimit": 120}
     nr = 400 if tier == "quick" else 4000
@@ -233,6 +290,17 @@ def decorate(Dg, seed):
         for name in ("order", "label"):
             if r.random() < 0.3:
                 Dg.nodes[n][name] = _attr_value(r)
+        # attribute KEYS that are not str (a `**d` expansion of such a dict raises TypeError)
+        if r.random() < 0.4:
+            Dg.nodes[n][r.choice([0, 7, ("k", 1), None, 2.5])] = r.choice([0, "v", None])
+    for u, v in Dg.edges:
+        if r.random() < 0.3:
+            Dg[u][v][r.choice([0, 7, ("k", 1), None])] = r.choice([0, "v", None])
+    try:
+        if r.random() < 0.5:
+            Dg.graph[r.choice([0, ("g", 2), "name"])] = r.choice([0, "v", None])
+    except Exception:      # frozen / view graphs share or protect the graph dict
+        pass
 
 
 def mutate_returned(C, seed):
@@ -310,11 +378,68 @@ def structure(Dg):
                    for u, v, d in Dg.edges(data=True)), repr(sorted(Dg.graph.items(), key=repr)))
 
 
+def ts_template(rng, undirected=False):
+    """template of a stationary time-series graph: variables 0..k-1, max_lag L; directed template edges [x, lag, y] meaning
+    (x, -lag) -> (y, 0) (lag 0: x before y in a fixed variable order, so the graph is acyclic); undirected contemporaneous [x, y]"""
+    k = rng.randint(2, 4)
+    L = rng.randint(1, 2)
+    D, U, used = [], [], set()
+    for x in range(k):
+        for y in range(k):
+            for lag in range(0, L + 1):
+                if lag == 0 and x >= y:
+                    continue
+                if rng.random() < (0.3 if lag else 0.4):
+                    if lag == 0:
+                        if undirected and rng.random() < 0.5:
+                            U.append([x, y])
+                        else:
+                            D.append([x, 0, y])
+                        used.add((x, y))
+                    else:
+                        D.append([x, lag, y])
+    return {"k": k, "L": L, "D": D, "U": U}
+
+
+def ts_abstract(obj):
+    """abstract graph {V,D,U} over ints of a time-series object, with the label table"""
+    nodes = list(obj.nodes)
+    num = {n: i for i, n in enumerate(nodes)}
+    if hasattr(obj, "get_graphs"):
+        Dl = obj.get_graphs("directed").edges
+        Ul = obj.get_graphs("undirected").edges
+    else:
+        Dl, Ul = obj.edges, []
+    g = gr.G(range(len(nodes)), D=sorted([num[a], num[b]] for a, b in Dl), U=sorted(sorted((num[a], num[b])) for a, b in Ul))
+    return g, (lambda v: nodes[v]), (lambda x: num[x])
+
+
+def ts_digraph(case):
+    from pywhy_graphs.classes.timeseries import StationaryTimeSeriesDiGraph
+    t = case["ts"]
+    Dg = StationaryTimeSeriesDiGraph(max_lag=t["L"])
+    Dg.add_variables_from(["v%d" % i for i in range(t["k"])])
+    for x, lag, y in gr.ordered(case, t["D"], "E"):
+        Dg.add_edge(("v%d" % x, -lag), ("v%d" % y, 0))
+    return Dg
+
+
+def graph_of(case):
+    """the abstract DAG of a case (time-series cases carry a template; their graph is read off the built object)"""
+    if "ts" in case:
+        return ts_abstract(ts_digraph(case))[0]
+    return case["g"]
+
+
 def build(case, first_call=None):
     """the DiGraph handed to the code.  case["drop"]: edges of g added only AFTER a first call; case["extra"]: edges
     present at the first call and removed before the second; case["attrs"]: seed of pre-existing attributes.
     first_call(Dg) is run on the initial graph (only by run_impl; it does not change nodes/edges, so the
     topological order computed by encode() without it is the one the code sees)."""
+    if "ts" in case:
+        Dg = ts_digraph(case)
+        _, lab, inv = ts_abstract(Dg)
+        return Dg, lab, inv
     g = case["g"]
     drop = [list(e) for e in case.get("drop", [])]
     extra = [list(e) for e in case.get("extra", [])]
@@ -345,20 +470,41 @@ def topo_order(case):
 
 
 def oracle_on(case):
-    return len(case["g"]["D"]) <= case.get("orc", 12)
+    return len(graph_of(case)["D"]) <= case.get("orc", 12)
 
 
 def encode(case):
-    return [0 if oracle_on(case) else 1, gr.enc(case["g"]), topo_order(case)]
+    return [0 if oracle_on(case) else 1, gr.enc(graph_of(case)), topo_order(case)]
 
 
 def decode(case, v):
-    return {"ok": v[0], "nodes": v[1], "directed": v[2], "undirected": v[3], "topo_ok": v[4],
-            "oracle": v[5] if oracle_on(case) else None}
+    out = {"ok": v[0], "nodes": v[1], "directed": v[2], "undirected": v[3], "topo_ok": v[4],
+           "oracle": v[5] if oracle_on(case) else None}
+    if case.get("unit"):
+        out["order"] = v[6]
+    return out
 
 
 def run_impl(case):
     from pywhy_graphs.algorithms import dag_to_cpdag
+    if case.get("unit"):
+        # the two helpers called directly: Chickering's total order on the edges (Alg. 4) and the labels (Alg. 5)
+        from pywhy_graphs.algorithms import label_edges, order_edges
+        from pywhy_graphs.algorithms.cpdag import EDGELABELS
+        Dg, lab, inv = build(case)
+        before = structure(Dg)
+        G1 = order_edges(Dg)
+        nums = sorted(G1.edges[e]["order"] for e in G1.edges)
+        order = [[inv(u), inv(v)] for u, v in sorted(G1.edges, key=lambda e: G1.edges[e]["order"])]
+        G2 = label_edges(G1)
+        if structure(Dg) != before:
+            return {"input_changed": True}
+        labs = {(u, v): G2.edges[u, v]["label"] for u, v in G2.edges}
+        return {"nodes": sorted(inv(v) for v in G2.nodes),
+                "directed": sorted([inv(a), inv(b)] for (a, b), l in labs.items() if l == EDGELABELS.COMPELLED),
+                "undirected": sorted(sorted((inv(a), inv(b))) for (a, b), l in labs.items() if l == EDGELABELS.REVERSIBLE),
+                "extra_layers": [repr(l) for l in set(labs.values()) - {EDGELABELS.COMPELLED, EDGELABELS.REVERSIBLE}],
+                "order": order, "order_numbers_ok": nums == list(range(len(nums))), "same_object": G1 is Dg and G2 is Dg}
     Dg, lab, inv = build(case, first_call=dag_to_cpdag)
     if case.get("retmut") is not None:
         # the caller edits the RETURNED CPDAG in place, then converts an equal fresh DAG: the second result is judged
@@ -392,16 +538,22 @@ def compare(case, impl, model):
         return "undirected"
     if impl["extra_layers"]:
         return "extra-layers"
+    if "order" in impl:
+        if impl["order"] != model["order"]:
+            return "edge-order"
+        if not impl["order_numbers_ok"]:
+            return "edge-order-numbers"
     return None
 
 
 def nontrivial(case, model):
-    iso = set(case["g"]["V"]) - {v for e in case["g"]["D"] for v in e}
+    g = graph_of(case)
+    iso = set(g["V"]) - {v for e in g["D"] for v in e}
     return bool(model.get("directed") and model.get("undirected")) or bool(iso)
 
 
 def key(case):
-    return (gr.canon(case["g"]), tuple(map(tuple, case.get("drop", []))), tuple(map(tuple, case.get("extra", []))),
+    return (gr.canon(graph_of(case)), bool(case.get("unit")), tuple(map(tuple, case.get("drop", []))), tuple(map(tuple, case.get("extra", []))),
             case.get("attrs"), case.get("retmut"), case.get("_lab"), case.get("input"))
 
 
@@ -410,6 +562,12 @@ def classify(case, impl, model):
 
 
 def shrink(case):
+    if "ts" in case:
+        t = case["ts"]
+        for f in ("D", "U"):
+            for i in range(len(t[f])):
+                yield dict(case, ts=dict(t, **{f: t[f][:i] + t[f][i + 1:]}))
+        return
     for h in gr.shrink_graph(case["g"]):
         c = dict(case, g=h)
         vs = set(h["V"])
